@@ -442,8 +442,15 @@ class Normalizer:
         if orient is None:
             if len(L) != 1 or (len(R) == 1 and len(R[0].atoms) > len(L[0].atoms)):
                 L, R = R, L
+        def _plain(P):
+            # rules are keyed by atom identity: a left-hand side must not carry diagonal exponents other than 1
+            return len(P) == 1 and not P[0].scal and all((not a.diag) or _is_num(a.exp, 1) for a in P[0].atoms)
+        if not _plain(L) and _plain(R) and R[0].atoms:
+            L, R = R, L
         if len(L) != 1 or L[0].scal:
             raise Unsupported(f"hypothesis with a non-monomial left-hand side: {lhs!r}")
+        if not _plain(L):
+            raise Unsupported(f"hypothesis whose left-hand side carries a diagonal power: {lhs!r}")
         m = L[0]
         if not m.atoms:
             if self.equal_poly(L, R)[0]:
